@@ -38,6 +38,12 @@ func c03Gen(rt *rapid.T) c03Case {
 		Small:      true,
 		FlushFlags: true,
 	}
+	if rapid.IntRange(0, 3).Draw(rt, "bigrows") == 0 {
+		// victims whose log records exceed a few KiB: wide rows, many of them
+		cfg.Small = false
+		cfg.RowCounts = []int{1, 2, 9, 12, 20, 40}
+		cfg.MaxStmts = 10
+	}
 	db := model.NewDB()
 	c := c03Case{Stmts: gen.History(rt, cfg, db)}
 	c.VictimPick = rapid.SliceOfN(rapid.IntRange(0, 1000), 1, 3).Draw(rt, "victims")
